@@ -174,4 +174,42 @@ structure HypL (D : List String) (es : List Expr) (n N : Nat) : Prop where
   fresh : ∀ m, n ≤ m → m < N → tmpName m ∉ namesList es
   bound : (decList es n).n ≤ N
 
+theorem binOp_beq (a b : BinOp) : (a == b) = decide (a = b) := by
+  cases a <;> cases b <;> rfl
+
+theorem lowered_iff {op : BinOp} {r : Expr} :
+    ((op == .and || op == .or) && !isAtom r) = true ↔ ((op = .and ∨ op = .or) ∧ isAtom r = false) := by
+  simp [binOp_beq]
+
+theorem dec_and_lowered {ty : Ty} {l r : Expr} (h : isAtom r = false) (n : Nat) :
+    dec (.bin .and ty l r) n =
+      ⟨(decImm l n).L, .ite (decImm l n).c (anf r (decImm l n).n ret).1 (.prim (.bool false)),
+        (anf r (decImm l n).n ret).2⟩ := by
+  simp [dec, h, binOp_beq, decImm]
+
+theorem dec_or_lowered {ty : Ty} {l r : Expr} (h : isAtom r = false) (n : Nat) :
+    dec (.bin .or ty l r) n =
+      ⟨(decImm l n).L, .ite (decImm l n).c (.prim (.bool true)) (anf r (decImm l n).n ret).1,
+        (anf r (decImm l n).n ret).2⟩ := by
+  simp [dec, h, binOp_beq, decImm]
+
+structure HypD (D : List String) (d : Option Expr) (n N : Nat) : Prop where
+  frag : fragDflt d = true
+  dis : ∀ x ∈ namesDflt d, x ∉ D
+  fresh : ∀ m, n ≤ m → m < N → tmpName m ∉ namesDflt d
+  bound : (anfDflt d n).2 ≤ N
+
+structure HypA (D : List String) (arms : List Arm) (d : Option Expr) (n N : Nat) : Prop where
+  fragA : fragArms arms = true
+  fragD : fragDflt d = true
+  dis : ∀ x ∈ namesArms arms ++ namesDflt d, x ∉ D
+  fresh : ∀ m, n ≤ m → m < N → tmpName m ∉ namesArms arms ++ namesDflt d
+  bound : (anfDflt d (anfArms arms n).2).2 ≤ N
+
+theorem armMatches_armHead (lhs : Expr) (v : Val) : armMatches (armHead lhs) v = armMatches lhs v := by
+  cases lhs <;> try rfl
+  rename_i c ty args
+  cases c <;> try rfl
+  cases v <;> rfl
+
 end Goml.Anf
